@@ -3,7 +3,7 @@
  * Case lines (same file is read by ml/c15_driver.ml; lines of family x / y belong to c15_cxx.cpp):
  *   <id> c <op> <args> ...     object history; slots 0..5 metatype pointers, 6..8 arrays, 9..11 deferred replies
  *                              kinds: buf hbuf hcnt huni gen mbuf cfg top reply raw stream iterf itern
- *        rawdata (plot data object): modify m <dim> <form> | advance m | rget m a | setin m a | rread m;
+ *        rawdata (plot data object): modify m <dim> <form> | advance m | rget m a | setin m a | rread m | rconv m;
  *        its stage buffer is object kind "stage"
  *   <id> r <cop> <args> ...    mpt_refcount_raise / mpt_refcount_lower on a bare counter (set <hex> | raise | lower)
  *
@@ -298,6 +298,23 @@ static const char *raw_read(MPT_STRUCT(RawData) *rd)
 		good = lim->_rd._vptr->modify(&lim->_rd, 0, &val, 0);
 		x->_vptr->unref(x);
 		if (bad >= 0 || good < 0) return "?lim1";
+	}
+	return "D";
+}
+/* the object converts to its own interface through the type id registered for "mpt.rawdata", on EVERY call of a
+ * process, and reports that id as its own type (docs/C15_rawdata_type_traits.diff) */
+static const char *raw_conv(MPT_STRUCT(RawData) *rd)
+{
+	int i;
+	for (i = 0; i < 3; i++) {
+		const MPT_STRUCT(named_traits) *nt;
+		const void *p = 0;
+		int me = rd->_mt._vptr->convertable.convert((void *) &rd->_mt, 0, 0);
+		if (me < 0) return "?conv0";
+		if (!(nt = mpt_named_traits("mpt.rawdata", -1))) return "?name";
+		if (me != (int) nt->type) return "?type";
+		if (rd->_mt._vptr->convertable.convert((void *) &rd->_mt, nt->type, &p) != (int) nt->type || p != &rd->_rd) return "?iface";
+		if (mpt_rawdata_type_traits() != nt) return "?traits";
 	}
 	return "D";
 }
@@ -653,6 +670,12 @@ static void run_objects(int ntok, char **tok)
 			t += 1;
 			if (bank(m) != 0 || slot_kind(m) != KRAW) vh_tok("X");
 			else vh_tok(raw_read(MPT_baseaddr(RawData, mslot[m], _mt)));
+		}
+		else if (!strcmp(op, "rconv")) {
+			int m = ARGI(0);
+			t += 1;
+			if (bank(m) != 0 || slot_kind(m) != KRAW) vh_tok("X");
+			else vh_tok(raw_conv(MPT_baseaddr(RawData, mslot[m], _mt)));
 		}
 		else if (!strcmp(op, "defer")) {
 			int s = ARGI(0), d = ARGI(1);
